@@ -697,8 +697,8 @@ def scalar_tree_cases(rng, n):
 
 def generate(rng, tier, scale, **focus):
     quick = tier == 'quick'
-    n_trees = (260 if quick else 6000) * scale
-    n_ops = (500 if quick else 9000) * scale
+    n_trees = (260 if quick else 12000) * scale
+    n_ops = (500 if quick else 18000) * scale
     yield from ctor_cases()
     # constructor-built trees x enumerated truth assignments
     for n in range(n_trees):
@@ -729,7 +729,7 @@ def generate(rng, tier, scale, **focus):
                 continue
         for t in targets_for(atoms, rng, with_faults=rng.random() < 0.3):
             yield {'ops': ops, 'target': t}
-    yield from check_cases(rng, (2 if quick else 40) * scale)
+    yield from check_cases(rng, (5 if quick else 60) * scale)
     yield from msub_cases(rng, (300 if quick else 6000) * scale)
     yield from scalar_tree_cases(rng, (150 if quick else 4000) * scale)
     if quick or focus:
